@@ -711,6 +711,9 @@ class Runner:
         if self.cplx and cls not in COMPLEX_OK and not (self.kf and cls in ("LindbladOps", "TDM")):
             self.ctx.ev(i, "create", cls, "noop-complex")
             return
+        if cls not in COMPLEX_OK and not (self.kf and self.cplx) and any(l.get("complexS") for l in self.levels):
+            self.ctx.ev(i, "create", cls, "noop-complex-eigenvectors")      # see blocked()
+            return
         Y = self.payload(cls, op["pay"], op.get("shape", "generic"), dim)
         native = bool(op.get("native")) and cls in ("RelTensor", "LindbladOps")
         try:
